@@ -295,6 +295,21 @@ RetryCadenceStep ==
               /\ [kind |-> "req", chain |-> agg[d].our.chain, tx |-> agg[d].tx, d |-> d] \in out'
 RetryCadence == [][RetryCadenceStep]_vars
 
+\* "Every other entry is removed after a bounded time ... so no aggregation entry lives forever", as what one cleanup
+\* pass must leave behind (that passes keep coming is the fairness assumption, checked on the real tick source).  An
+\* entry that was already settled before the pass and survives it is not overdue: not a completed entry of DoneT or
+\* more, not an unobserved one that is RetryT old (nothing was ever retried for it), not an observed one whose retry
+\* budget is spent, and not a "late" one the pass was told about.  With RetryCadence (each retry advances the counter)
+\* and the budget this bounds every entry's life to SettleT + DoneT resp. RetryT * (RetryBudget + 1) of ticked time.
+Overdue(e) ==
+    \/ e.submitted /\ Age(e) >= DoneT
+    \/ ~e.submitted /\ e.our = Nil /\ Age(e) >= RetryT /\ RetryDue(e)
+    \/ ~e.submitted /\ e.our # Nil /\ e.retry >= RetryBudget
+BoundedLifeStep ==
+    \A L \in SUBSET LateSet : CleanupTick(L) =>
+        \A d \in DOMAIN agg' : (d \in DOMAIN agg /\ agg[d].settled) => (~Overdue(agg[d]) /\ d \notin L)
+BoundedLife == [][BoundedLifeStep]_vars
+
 \* Nothing but a retry re-sends or requests anything.
 RetryOnlyWhenDueStep ==
     \A o \in out' : (o.kind = "req" \/ (o.kind = "obs" /\ o.resend)) =>
